@@ -95,6 +95,44 @@ def combo_diamond_scatter(n):
                                 "right": [{"op": "scatter", "name": "sr", "body": [P("br")]}]}]}
 
 
+def with_pop(prog):
+    """Same program, every output extracted through PopCommandOutputProcessor."""
+    return dict(prog, shape=prog["shape"] + "-pop", pop=True)
+
+
+def two_sites(k=3, on_b=(2,)):
+    """Pipeline p0..p(k-1); the stages listed in `on_b` run on the second deployment."""
+    sp = pipeline(k)
+    return dict(sp, shape=f"pipe{k}-siteb" + "".join(str(i) for i in on_b), sites={f"p{i}": "b" for i in on_b})
+
+
+def two_sites_scatter(n=3):
+    """a (site a) -> scatter(b on site b) -> c (site a)."""
+    sp = scatter(n)
+    return dict(sp, shape=f"scatter{n}-siteb", sites={"b": "b"})
+
+
+def sequence_faults(prog):
+    """Fault SEQUENCES on one downstream job D across phases: D's transfer (or schedule) fails softly -
+    D is recovered once with all data intact - and then D's execute phase fails with a fail-stop;
+    optionally after an upstream job U already failed with a fail-stop."""
+    jobs = R.jobs_of(prog)
+    anc = R.ancestors(jobs)
+    for j in jobs:
+        d = j["job"]
+        if not anc[d]:
+            continue
+        for first in ("transfer", "schedule"):
+            for kind in ("all", "own"):
+                base = [{"job": d, "phase": first, "kind": "soft", "count": 1},
+                        {"job": d, "phase": "execute", "kind": kind, "count": 1}]
+                yield base
+                if kind == "all":
+                    for u in sorted(anc[d]):
+                        for pu in ("execute", "transfer"):
+                            yield [{"job": u, "phase": pu, "kind": "all", "count": 1}] + base
+
+
 def has_loop(stages) -> bool:
     for st in stages:
         if st["op"] == "loop":
